@@ -286,6 +286,31 @@ def run_fresnel(case, seed, R):
                         R.violation(f'fresnel_t{pol}:output', f'unusable fresnel output: {e}')
         R.nontrivial(n0 != n1)
         R.outcome('interface' if n0 != n1 else 'matched')
+    # array-valued arguments (batched == element-wise, for the interface functions themselves): every admissible angle at once as a
+    # 1-D array and as a 2-D array, and the indices as arrays against scalar angles
+    ok_aois = [aoi for _, aoi in aois if below_tir(n0, aoi, n1)]
+    if len(ok_aois) >= 2:
+        th0s = np.radians(np.array(ok_aois, dtype=float))
+        ss = n0 * np.sin(th0s)
+        c0s, c1s = np.cos(th0s), np.sqrt(1 - (ss / n1) ** 2)
+        th1s = np.arcsin(ss / n1)
+        wantv = {'rs': (n0 * c0s - n1 * c1s) / (n0 * c0s + n1 * c1s), 'ts': 2 * n0 * c0s / (n0 * c0s + n1 * c1s),
+                 'rp': (n0 * c1s - n1 * c0s) / (n0 * c1s + n1 * c0s), 'tp': 2 * n0 * c0s / (n0 * c1s + n1 * c0s)}
+        tolv = KTOL * EPS / c1s ** 2
+        g = R.call(tf.snell_aor, n0, n1, th0s.copy(), degrees=False)
+        R.expect_close(g, th1s, tolv, 'snell_aor:array', f'snell_aor({n0},{n1}, array of {len(ok_aois)} angles)')
+        forms = [('1d', lambda v: v.copy())]
+        if len(ok_aois) % 2 == 0:
+            forms.append(('2d', lambda v: v.reshape(2, -1).copy()))
+        forms.append(('col', lambda v: v.reshape(-1, 1).copy()))
+        for k, f in (('rs', tf.fresnel_rs), ('ts', tf.fresnel_ts), ('rp', tf.fresnel_rp), ('tp', tf.fresnel_tp)):
+            for fname, mk in forms:
+                g = R.call(f, n0, n1, mk(th0s), mk(th1s))
+                R.expect_close(g, mk(wantv[k]), mk(tolv), f'fresnel_{k}:array:{fname}', f'fresnel_{k}({n0},{n1}) with {fname} arrays of angles vs the scalar formula element-wise')
+            # indices as arrays (a dispersive interface evaluated at several wavelengths): constant arrays against one scalar angle
+            j = len(ok_aois) // 2
+            g = R.call(f, np.full(3, n0, dtype=float), np.full(3, n1, dtype=float), float(th0s[j]), float(th1s[j]))
+            R.expect_close(g, np.full(3, wantv[k][j]), tolv[j], f'fresnel_{k}:array:index', f'fresnel_{k} with array-valued indices vs scalar')
 
 
 # ---------------------------------------------------------------------------------------------
@@ -471,6 +496,49 @@ def run_batch(case, seed, R):
     R.outcome(sq)
 
 
+def run_batch_large(case, seed, R):
+    """size thresholds of the batched branch: a batch of nb elements made of PERIOD distinct stacks repeated along the flattened
+    batch (an odd period never divides a block length), judged on EVERY element against the scalar call of its stack."""
+    shape, L, lam, n0, period = tuple(case['shape']), case['L'], case['lam'], case['amb'], case['period']
+    per = batch_entries(dict(case, shape=[period]), seed)
+    nb = int(np.prod(shape))
+    cplx = case['absorbing']
+    idx = np.arange(nb) % period
+    n_arr = [np.array([per[k][j][0] for k in range(period)], dtype=complex if cplx else float)[idx].reshape(shape) for j in range(L + 1)]
+    d_arr = [np.array([per[k][j][1] for k in range(period)], dtype=float)[idx].reshape(shape) for j in range(L + 1)]
+    for aoi in case['aois']:
+        for pol in 'sp':
+            sig = f'batch:large:{len(shape)}d:{pol}'
+            loop_r, loop_t, tols = [], [], []
+            for k in range(period):
+                rt = lib_rt(R, per[k], lam, pol, aoi, n0, 'batch:loop-element')
+                ref = ref_rt(n0, per[k], lam, np.array([float(aoi)]), pol)
+                tols.append(KTOL * EPS * ref['cond'][0] * (1 + abs(ref['r'][0]) + abs(ref['t'][0])))
+                if rt is None:
+                    loop_r = None
+                    break
+                loop_r.append(rt[0])
+                loop_t.append(rt[1])
+                R.expect_close(rt[0], ref['r'][0], tols[-1], f'stack:{pol}:{amb_tag(n0)}:r-vs-reference', f'element {k} r vs reference')
+                R.expect_close(rt[1], ref['t'][0], tols[-1], f'stack:{pol}:{amb_tag(n0)}:t-vs-reference', f'element {k} t vs reference')
+            if loop_r is None:
+                continue
+            want_r, want_t, tol = (np.array(v)[idx].reshape(shape) for v in (loop_r, loop_t, tols))
+            stack = [[n_arr[j].copy(), d_arr[j].copy()] for j in range(L + 1)]
+            out = R.call(tf.multilayer_stack_rt, stack, lam, pol, aoi=aoi, ambient_index=n0, sig=sig + ':exception', hygiene=nb <= 20000)
+            if out is FAILED:
+                continue
+            try:
+                r, t = out
+            except Exception as e:   # noqa
+                R.violation(sig + ':output', f'unusable output: {e}')
+                continue
+            R.expect_close(r, want_r, tol, sig + ':r', f'batched r {shape} (period-{period} tiling of distinct stacks) vs per-element scalar calls, aoi={aoi}')
+            R.expect_close(t, want_t, tol, sig + ':t', f'batched t {shape} (period-{period} tiling of distinct stacks) vs per-element scalar calls, aoi={aoi}')
+    R.nontrivial()
+    R.outcome(f'large:{len(shape)}d')
+
+
 # ---------------------------------------------------------------------------------------------
 
 def plan(tier, seed):
@@ -538,6 +606,9 @@ def plan(tier, seed):
                     if vary == 'both' or int(np.prod(shape)) > 1:
                         batch.append({'shape': shape, 'L': L, 'off': 0, 'amb': amb, 'lam': 0.55, 'absorbing': True, 'generic': True, 'vary': vary, 'aois': [0, 45]})
     aoitxt = '{0,10,45,60,80,89 deg, Brewster angle of the first interface}'
+    lshapes = [[129], [257], [4097], [6147], [70, 70], [100, 100], [3, 1400], [65537]] + ([] if quick else [[131073], [300, 301], [2, 3, 11000], [1030, 1031]])
+    large = [{'shape': sh, 'L': L, 'off': off, 'amb': amb, 'lam': 0.55, 'absorbing': ab, 'generic': False, 'period': 7, 'aois': [0, 45]}
+             for sh in lshapes for (L, off, amb, ab) in ((2, 1, 1.0, False), (1, 3, 1.33, True))]
     return [
         ScopeUnit('fresnel', fres, run_fresnel,
                   f'every interface n0 in {{1,1.33,1.5,2.3}} x n1 in {{1,1.38,1.5,2.3}} x aoi in {aoitxt} below the critical angle: snell_aor, brewsters_angle, '
@@ -559,4 +630,8 @@ def plan(tier, seed):
                   'array-valued index/thickness of shapes {(2,),(3,),(2,3),(2,1,2),(1,),(1,1)' + ('' if quick else ',(4,1)') + f'}} x 0..{3 if quick else 4} layers x 8+ alphabet offsets (every batch element a different stack, '
                   'different along the batch and across layers, so batch size == entry count ("square") and != are both present) x real/complex x what varies along the batch {index and thickness, thickness only (fixed materials), index only (fixed thicknesses)} x list-of-pairs and ndarray input forms x aoi x pol: '
                   'batched r, t entry-wise equal to the per-element loop; plus one seeded generic representative per shape/length'),
+        ScopeUnit('batch_large', large, run_batch_large,
+                  f'size-threshold alphabet of batch shapes {lshapes} (element counts just above 2^7..2^16' + ('' if quick else ' / 2^17 / 2^20') + ' and not a multiple of a power of two) x {2 lossless layers in air, 1 absorbing layer in water} '
+                  'x aoi {0,45} x pol: the batch is a period-7 tiling of 7 different stacks along the flattened batch, EVERY element of the batched r, t is compared with the scalar call '
+                  'of its stack (and the 7 scalar calls with the reference); not closed over sizes'),
     ]
